@@ -291,6 +291,20 @@ def workload(tier, seed, scale=1.0):
                 add('uni_i_inc', b'', tail, [l, u - 1], ('iuni-inc', bits % 64))
                 add('range_i', b'', tail, [l, u], ('igen_range', bits % 64))
                 add('range_i_inc', b'', tail, [l, u - 1], ('igen_range-inc', bits % 64))
+    # ranges symmetric around zero with a power-of-two bound, and ranges whose ends both fit i64 / i128 but whose width does not
+    sym = [(-(1 << k), 1 << k) for k in (0, 1, 2, 5, 31, 32, 63, 64, 65)]
+    wide = [(-(1 << 63), (1 << 63) - 1), (-1, (1 << 63) - 1), (-(1 << 62), 1 << 62), (-(1 << 63), 1), (-(1 << 127), (1 << 127) - 1), (-(1 << 126), 1 << 126),
+            (-(1 << 31), (1 << 31) - 1), (-(1 << 63) + 5, (1 << 62) + 9)]
+    for l, u in sym + wide:
+        for tail in ('z', 'o', 'c', 's11'):
+            for fn in ('irange', 'single_i', 'uni_i', 'range_i'):
+                add(fn, b'', tail, [l, u], ('sym-wide', fn, (u - l).bit_length()))
+            add('uni_i_inc', b'', tail, [l, u - 1], ('sym-wide', 'inc', (u - l).bit_length()))
+            add('range_i_inc', b'', tail, [l, u - 1], ('sym-wide', 'rinc', (u - l).bit_length()))
+    # the lower bound of a symmetric power-of-two range must be reachable: all-zero candidate
+    for k in (0, 1, 2, 3):
+        for fn in ('irange', 'single_i', 'uni_i', 'range_i'):
+            add(fn, b'', 'z', [-(1 << k), 1 << k], ('sym-low', fn, k))
     # width-1 and equal-bounds inclusive ranges
     for x in (0, 1, -1, 5, -5, 1 << 64, -(1 << 64)):
         add('uni_i_inc', b'', 'c', [x, x], ('inc-eq',))
